@@ -136,6 +136,13 @@ def main():
                                       json.dumps({k: (v["exit"], v["classes"]) for k, v in r.get("checks", {}).items()})), flush=True)
         if not sys.argv[2:]:
             json.dump(results, open(os.path.join(SEEDED, "RESULTS.json"), "w"), indent=1)
+        elif os.environ.get("SEEDED_MERGE") and tier == "quick":
+            # re-run of a subset: replace those entries of RESULTS.json
+            path = os.path.join(SEEDED, "RESULTS.json")
+            old = {r["id"]: r for r in json.load(open(path))} if os.path.exists(path) else {}
+            for r in results:
+                old[r["id"]] = r
+            json.dump([old[k] for k in sorted(old)], open(path, "w"), indent=1)
         return 0
     print(__doc__)
     return 2
